@@ -204,6 +204,7 @@ func (x *runner) exec(w *world, endpoint string, body []byte, info caseInfo) {
 		return
 	}
 	x.mark(key, phaseRequest, info)
+	w.ts.Rec.Take() // whatever restoring the base state recorded is not this request's doing
 	var res seam.Result
 	if endpoint == "external" {
 		res = serveExternal(w, body)
@@ -251,6 +252,18 @@ func (x *runner) exec(w *world, endpoint string, body []byte, info caseInfo) {
 		x.r.Violate("rejected-request-changed-state/"+diffClass(cur, w.base), "a request that is neither valid Demon traffic nor registered third-party traffic changed the teamserver state: "+diffText(w.snap, snap.String()), info)
 	}
 
+	// (e') traffic whose magic is neither the Demon's nor a registered third-party one must
+	// not touch any session at all — not even the last-call-in bookkeeping of a session
+	// whose id it happens to name (no update, no notice to operators)
+	realMagic := uint32(0)
+	if len(body) >= 8 {
+		realMagic = binary.BigEndian.Uint32(body[4:])
+	}
+	if invalid && realMagic != magicDemon && !(realMagic == magicThirdParty && w.st == S5) && len(effects) > 0 {
+		magic = realMagic
+		x.r.Violate("rejected-request-has-effects/"+effectAll(effects), fmt.Sprintf("a request with the unregistered magic %08x was rejected (status %d) but the teamserver acted on it: %v [posted %d bytes: %x]", magic, res.Status, effects, len(body), body[:min(len(body), 24)]), info)
+	}
+
 	// no wedge: a cycle of pivot parents makes the next task for that agent loop forever
 	if a := w.cycle(); a != nil {
 		x.wedge(w, a, key, info)
@@ -281,6 +294,20 @@ func (x *runner) wedge(w *world, a *agent.Agent, key string, info caseInfo) {
 	a.AddJobToQueue(agent.Job{Command: agent.COMMAND_SLEEP, RequestID: 0x7001, Data: []any{1, 0}})
 	x.r.Outcome("pivot-cycle-but-tasking-returns")
 	w.clean(fingerprint{}, true)
+}
+
+// effectAll names every recorded call kind (nothing filtered).
+func effectAll(l []seam.Effect) string {
+	set := map[string]bool{}
+	for _, e := range l {
+		set[e.Call] = true
+	}
+	names := make([]string, 0, len(set))
+	for n := range set {
+		names = append(names, n)
+	}
+	sort.Strings(names)
+	return strings.Join(names, ",")
 }
 
 func effectClass(l []seam.Effect) string {
